@@ -9,6 +9,8 @@ package main
 
 import (
 	"context"
+	"encoding/json"
+	"fmt"
 	"math/rand"
 	"runtime"
 
@@ -85,6 +87,8 @@ func opParEpochs(g *G) (interface{}, []uint64, int, interface{}) {
 		assignFitness(g, pop, landscape)
 		pops = append(pops, dumpPop(pop))
 		old := append([]*genetics.Organism{}, pop.Organisms...)
+		oldSnap := snapshotGenomes(old)
+		nSpeciesBefore := len(pop.Species)
 		var pan interface{}
 		var err error
 		func() {
@@ -96,7 +100,14 @@ func opParEpochs(g *G) (interface{}, []uint64, int, interface{}) {
 			errAt = e
 			break
 		}
-		fresh = append(fresh, generationFresh(old, pop))
+		fr := generationFresh(old, pop)
+		if fr == "" && nSpeciesBefore >= 2 && opts.InterspeciesMateRate > 0 {
+			// the old generation is shared, read-only input of all reproduction goroutines (every goroutine may draw
+			// a dad from any other species): a genome of it that was written during reproduction is a data race
+			// under some schedule and draw
+			fr = oldGenerationModified(oldSnap, old)
+		}
+		fresh = append(fresh, fr)
 		var v *string
 		if ok, verr := pop.Verify(); !ok || verr != nil {
 			v = errStr(verr)
@@ -115,4 +126,24 @@ func opParEpochs(g *G) (interface{}, []uint64, int, interface{}) {
 		"speciesClass": speciesClass, "landscape": landscape}
 	out := map[string]interface{}{"pops": pops, "fresh": fresh, "verify": verify, "err": epochErr, "errAt": errAt}
 	return in, nil, 0, out
+}
+
+// snapshotGenomes: canonical dumps of the genomes of a generation (taken before the turnover)
+func snapshotGenomes(orgs []*genetics.Organism) []string {
+	r := make([]string, len(orgs))
+	for i, o := range orgs {
+		b, _ := json.Marshal(dumpGenome(o.Genotype))
+		r[i] = string(b)
+	}
+	return r
+}
+
+func oldGenerationModified(snap []string, orgs []*genetics.Organism) string {
+	for i, o := range orgs {
+		b, _ := json.Marshal(dumpGenome(o.Genotype))
+		if string(b) != snap[i] {
+			return fmt.Sprintf("genome %d of the previous generation (shared by the reproduction goroutines) was written during the parallel turnover", o.Genotype.Id)
+		}
+	}
+	return ""
 }
